@@ -52,9 +52,10 @@ def _engine_fault(e):
     fn = last.tb_frame.f_code.co_filename
     if fn.startswith(SX_DIR):
         return True
-    if isinstance(e, TypeError):
+    if isinstance(e, (TypeError, AttributeError)):
+        # an operation the engine's value classes do not model, attempted by repository code
         msg = str(e)
-        if "Sx" in msg or "_B64Bytes" in msg or "Numeral" in msg:
+        if "'Sx" in msg or "Sx" in msg and isinstance(e, TypeError) or "_B64Bytes" in msg or "Numeral" in msg or "SxText" in msg:
             return True
     return False
 
